@@ -422,6 +422,7 @@ class Gen:
         # parameter names: private to each macro, or the same few names in every macro (a caller then passes `$q1` for the
         # callee's `$q0`: substitution has to be simultaneous)
         shared_names = self.r.random() < 0.5
+        opless = []
         # callees first, so that the requirements on their arguments are known when their callers are generated
         for i in reversed(range(n)):
             name, nv = names[i]
@@ -432,10 +433,20 @@ class Gen:
             self.vars_in_scope = vars_
             self.in_macro = True
             self._lbl_macro = 0 if shared_names else None
-            body = self.block(min(self.c.depth, 2), False, False, n=self.r.randint(1, 4), allow_term=False)
-            if self.c.ctrl_in_blocks and self.r.random() < 0.3:
-                body.append(("ctrl", "return"))
-            body = self.fix(body, list(self.labels_defined)) or [self.op()]
+            if i > 0 and self.c.labels and self.r.random() < 0.12:
+                # a macro that emits no op at all (the grammar wants a statement: a label is the smallest one)
+                vars_ = []
+                body = [("label", f"lonely{i}" if not shared_names else "m1")]
+                opless.append(name)
+            else:
+                body = self.block(min(self.c.depth, 2), False, False, n=self.r.randint(1, 4), allow_term=False)
+                if self.c.ctrl_in_blocks and self.r.random() < 0.3:
+                    body.append(("ctrl", "return"))
+                body = self.fix(body, list(self.labels_defined)) or [self.op()]
+                if opless and self.r.random() < 0.4:
+                    # ... called as the very first statement of another macro: the first op of this expansion comes after a
+                    # complete (empty) nested expansion
+                    body.insert(0, ("macro", self.r.choice(opless), []))
             out.append((name, vars_, body))
             specs[i] = (name, [self.passes_on_intlike(v, body) for v in vars_])
         out.reverse()
